@@ -219,6 +219,12 @@ class SymConsts(I.SymDictBase):
             return I.Builtin('constants.items', lambda it, a, k: I.SymItems(self))
         if name == 'update':
             return I.Builtin('constants.update', self._update)
+        if name == 'get':
+            def get(it, a, k):
+                if it.truth(self.contains(it, a[0])):
+                    return self.getitem(it, a[0])
+                return a[1] if len(a) > 1 else k.get('default')
+            return I.Builtin('constants.get', get)
         raise I.Unsupported('constants.%s' % name)
 
     def comprehension(self, it, node, env):
